@@ -44,6 +44,36 @@ int main()
         std::ostringstream os;
         std::string cmd;
         is >> cmd;
+        if (cmd == "fgeant")
+        {
+            // ValueGridXsBuilder::from_geant on the four imported arrays as given:
+            //   fgeant n lambda_energy.. n lambda.. n lambda_prim_energy.. n lambda_prim..
+            // -> "threw <msg>" | prime size log_emin log_eprime log_emax | stored values
+            std::vector<double> le = rdvec(is), l = rdvec(is), pe = rdvec(is), lp = rdvec(is);
+            Collection<real_type, Ownership::value, MemSpace::host> reals;
+            Collection<XsGridData, Ownership::value, MemSpace::host> grids;
+            ValueGridInserter insert(&reals, &grids);
+            try
+            {
+                auto builder = ValueGridXsBuilder::from_geant(
+                    make_span(le), make_span(l), make_span(pe), make_span(lp));
+                auto id = builder->build(insert);
+                XsGridData const& g = grids[id];
+                Collection<real_type, Ownership::const_reference, MemSpace::host> ref;
+                ref = reals;
+                os << (g.prime_index == XsGridData::no_scaling() ? -1L : static_cast<long>(g.prime_index))
+                   << ' ' << g.log_energy.size << ' ' << hex(g.log_energy.front) << ' '
+                   << hex(std::log(pe.front())) << ' ' << hex(g.log_energy.back) << " |";
+                for (real_type v : ref[g.value])
+                    os << ' ' << hex(v);
+            }
+            catch (std::exception const& e)
+            {
+                os << "threw";
+            }
+            std::cout << os.str() << '\n';
+            continue;
+        }
         if (cmd != "vgb")
         {
             std::cout << "unknown-command " << cmd << '\n';
